@@ -1,7 +1,1108 @@
 /-
 Helper lemmas (agent model) — see the Props file that imports this module.
+Retransmission timing (C06): characterisation of `reqPoll`, geometric sums of the configured
+intervals, the invariants `KeysNodup` and `AllSent` of reachable states, and the characterisation of
+`agentPoll` (`ready`, `minWait`).
 -/
 import StunVerif.Lemmas.AgentMap
 namespace StunVerif.Agent
+
+/-! ### one request -/
+
+theorem reqPoll_recvCancelled (r : Req) (now : Nat) (h : r.recvCancelled = true) :
+    reqPoll r now = (r, .cancelled) := by
+  simp [reqPoll, h]
+
+theorem reqPoll_none (r : Req) (now : Nat) (hc : r.recvCancelled = false) (hl : r.lastSend = none) :
+    reqPoll r now =
+      if r.sendCancelled then (r, .cancelled) else ({ r with lastSend := some now }, .sendData) := by
+  simp [reqPoll, hc, hl]
+
+theorem reqPoll_some (r : Req) (now h : Nat) (hc : r.recvCancelled = false) (hl : r.lastSend = some h) :
+    reqPoll r now =
+      if r.timeouts.length ≤ r.timeoutI then
+        (if now < h + msNs r.lastRto then (r, .waitUntil (h + msNs r.lastRto)) else (r, .timedOut))
+      else if now < h + msNs (r.timeouts.getD r.timeoutI 0) then
+        (r, .waitUntil (h + msNs (r.timeouts.getD r.timeoutI 0)))
+      else if r.sendCancelled then ({ r with timeoutI := r.timeoutI + 1 }, .cancelled)
+      else ({ r with timeoutI := r.timeoutI + 1, lastSend := some now }, .sendData) := by
+  simp [reqPoll, hc, hl]
+
+theorem deadline_some (r : Req) (h : Nat) (hl : r.lastSend = some h) :
+    r.deadline = some (h + msNs (if r.timeoutI < r.timeouts.length
+      then r.timeouts.getD r.timeoutI 0 else r.lastRto)) := by
+  simp [Req.deadline, hl]
+
+/-- a transmitted request answers `waitUntil t` exactly when it is not cancelled, `t` is its
+    deadline and the deadline lies in the future -/
+theorem reqPoll_wait_iff (r : Req) (now t : Nat) (hl : r.lastSend.isSome = true) :
+    (reqPoll r now).2 = .waitUntil t ↔ r.recvCancelled = false ∧ r.deadline = some t ∧ now < t := by
+  cases hc : r.recvCancelled with
+  | true => simp [reqPoll_recvCancelled r now hc]
+  | false =>
+    obtain ⟨h, hh⟩ : ∃ h : Nat, r.lastSend = some h := Option.isSome_iff_exists.mp hl
+    rw [reqPoll_some r now h hc hh, deadline_some r h hh]
+    by_cases hk : r.timeouts.length ≤ r.timeoutI
+    · have hk' : ¬ r.timeoutI < r.timeouts.length := by omega
+      rw [if_pos hk, if_neg hk']
+      by_cases hn : now < h + msNs r.lastRto
+      · rw [if_pos hn]
+        constructor
+        · intro e
+          have e' : h + msNs r.lastRto = t := by simpa using e
+          subst e'
+          exact ⟨rfl, rfl, hn⟩
+        · rintro ⟨-, e, -⟩
+          have e' : h + msNs r.lastRto = t := by simpa using e
+          subst e'
+          rfl
+      · rw [if_neg hn]
+        constructor
+        · intro e
+          simp at e
+        · rintro ⟨-, e, hlt⟩
+          have e' : h + msNs r.lastRto = t := by simpa using e
+          omega
+    · have hk' : r.timeoutI < r.timeouts.length := by omega
+      rw [if_neg hk, if_pos hk']
+      by_cases hn : now < h + msNs (r.timeouts.getD r.timeoutI 0)
+      · rw [if_pos hn]
+        constructor
+        · intro e
+          have e' : h + msNs (r.timeouts.getD r.timeoutI 0) = t := by simpa using e
+          subst e'
+          exact ⟨rfl, rfl, hn⟩
+        · rintro ⟨-, e, -⟩
+          have e' : h + msNs (r.timeouts.getD r.timeoutI 0) = t := by simpa using e
+          subst e'
+          rfl
+      · rw [if_neg hn]
+        constructor
+        · intro e
+          by_cases hsc : r.sendCancelled = true
+          · simp [hsc] at e
+          · simp [hsc] at e
+        · rintro ⟨-, e, hlt⟩
+          have e' : h + msNs (r.timeouts.getD r.timeoutI 0) = t := by simpa using e
+          omega
+
+theorem reqPoll_wait_fst (r : Req) (now t : Nat) (h : (reqPoll r now).2 = .waitUntil t) :
+    (reqPoll r now).1 = r := by
+  cases hc : r.recvCancelled with
+  | true => simp [reqPoll_recvCancelled r now hc]
+  | false =>
+    cases hl : r.lastSend with
+    | none =>
+      rw [reqPoll_none r now hc hl] at h
+      by_cases hsc : r.sendCancelled = true
+      · simp [hsc] at h
+      · simp [hsc] at h
+    | some u =>
+      rw [reqPoll_some r now u hc hl] at h ⊢
+      by_cases hk : r.timeouts.length ≤ r.timeoutI
+      · rw [if_pos hk] at h ⊢
+        by_cases hn : now < u + msNs r.lastRto
+        · rw [if_pos hn]
+        · rw [if_neg hn]
+      · rw [if_neg hk] at h ⊢
+        by_cases hn : now < u + msNs (r.timeouts.getD r.timeoutI 0)
+        · rw [if_pos hn]
+        · rw [if_neg hn] at h
+          by_cases hsc : r.sendCancelled = true
+          · simp [hsc] at h
+          · simp [hsc] at h
+
+/-- a request handed out at `now` records `now` as its last transmission -/
+theorem reqPoll_sendData_lastSend (r : Req) (now : Nat) (h : (reqPoll r now).2 = .sendData) :
+    (reqPoll r now).1.lastSend = some now := by
+  cases hc : r.recvCancelled with
+  | true => simp [reqPoll_recvCancelled r now hc] at h
+  | false =>
+    cases hl : r.lastSend with
+    | none =>
+      rw [reqPoll_none r now hc hl] at h ⊢
+      by_cases hsc : r.sendCancelled = true
+      · simp [hsc] at h
+      · simp [hsc]
+    | some t =>
+      rw [reqPoll_some r now t hc hl] at h ⊢
+      by_cases hk : r.timeouts.length ≤ r.timeoutI
+      · rw [if_pos hk] at h
+        by_cases hn : now < t + msNs r.lastRto
+        · rw [if_pos hn] at h; simp at h
+        · rw [if_neg hn] at h; simp at h
+      · rw [if_neg hk] at h ⊢
+        by_cases hn : now < t + msNs (r.timeouts.getD r.timeoutI 0)
+        · rw [if_pos hn] at h; simp at h
+        · rw [if_neg hn] at h ⊢
+          by_cases hsc : r.sendCancelled = true
+          · simp [hsc] at h
+          · simp [hsc]
+
+/-- once `cancel_retransmissions` was called the request is never handed out again -/
+theorem reqPoll_sendCancelled (r : Req) (now : Nat) (hs : r.sendCancelled = true) :
+    (reqPoll r now).2 ≠ .sendData := by
+  cases hc : r.recvCancelled with
+  | true => simp [reqPoll_recvCancelled r now hc]
+  | false =>
+    cases hl : r.lastSend with
+    | none => simp [reqPoll_none r now hc hl, hs]
+    | some t =>
+      rw [reqPoll_some r now t hc hl]
+      by_cases hk : r.timeouts.length ≤ r.timeoutI
+      · rw [if_pos hk]
+        by_cases hn : now < t + msNs r.lastRto
+        · rw [if_pos hn]; simp
+        · rw [if_neg hn]; simp
+      · rw [if_neg hk]
+        by_cases hn : now < t + msNs (r.timeouts.getD r.timeoutI 0)
+        · rw [if_pos hn]; simp
+        · rw [if_neg hn]; simp [hs]
+
+/-! ### configured schedules -/
+
+theorem msNs_add (a b : Nat) : msNs (a + b) = msNs a + msNs b := by
+  unfold msNs; omega
+
+theorem two_pow_step (rto k : Nat) : rto * (2 ^ k - 1) + rto * 2 ^ k = rto * (2 ^ (k + 1) - 1) := by
+  have hp : 0 < 2 ^ k := Nat.pow_pos (by decide)
+  obtain ⟨m, hm⟩ : ∃ m, 2 ^ k = m + 1 := ⟨2 ^ k - 1, by omega⟩
+  rw [Nat.pow_succ, hm, ← Nat.mul_add]
+  congr 1
+  omega
+
+theorem geom_sum (rto n : Nat) :
+    ((List.range n).map (fun i => rto * 2 ^ i)).sum = rto * (2 ^ n - 1) := by
+  induction n with
+  | zero => simp
+  | succ n ih =>
+    rw [List.range_succ, List.map_append, List.sum_append, ih]
+    simp only [List.map_cons, List.map_nil, List.sum_cons, List.sum_nil, Nat.add_zero]
+    exact two_pow_step rto n
+
+theorem getD_map_range (f : Nat → Nat) (n k : Nat) (hk : k < n) :
+    ((List.range n).map f).getD k 0 = f k := by
+  simp [List.getD_eq_getElem?_getD, hk]
+
+theorem on_time_schedule (r0 : Req) (rto n last : Nat) (t0 : Nat)
+    (hc : r0.recvCancelled = false) (hs : r0.sendCancelled = false) :
+    let r := configureReq .udp r0 rto n last
+    let st (k : Nat) : Req := { r with timeoutI := k, lastSend := some (t0 + msNs (rto * (2 ^ k - 1))) }
+    (∀ k, k < n → reqPoll (st k) (t0 + msNs (rto * (2 ^ (k + 1) - 1))) = (st (k + 1), .sendData)) ∧
+    reqPoll (st n) (t0 + msNs (rto * (2 ^ n - 1)) + msNs last) = (st n, .timedOut) := by
+  intro r st
+  have hlen : r.timeouts.length = n := by simp [r, configureReq]
+  refine ⟨fun k hk => ?_, ?_⟩
+  · have hget : (st k).timeouts.getD k 0 = rto * 2 ^ k := getD_map_range _ n k hk
+    rw [reqPoll_some (st k) _ (t0 + msNs (rto * (2 ^ k - 1))) hc rfl]
+    have h1 : ¬ (st k).timeouts.length ≤ (st k).timeoutI := by
+      show ¬ r.timeouts.length ≤ k
+      omega
+    rw [if_neg h1]
+    have h2 : (t0 + msNs (rto * (2 ^ k - 1))) + msNs ((st k).timeouts.getD (st k).timeoutI 0)
+        = t0 + msNs (rto * (2 ^ (k + 1) - 1)) := by
+      show (t0 + msNs (rto * (2 ^ k - 1))) + msNs ((st k).timeouts.getD k 0) = _
+      rw [hget, Nat.add_assoc, ← msNs_add, two_pow_step]
+    rw [h2, if_neg (Nat.lt_irrefl _)]
+    have h3 : (st k).sendCancelled = false := hs
+    rw [if_neg (by rw [h3]; decide)]
+  · rw [reqPoll_some (st n) _ (t0 + msNs (rto * (2 ^ n - 1))) hc rfl]
+    have h1 : (st n).timeouts.length ≤ (st n).timeoutI := by
+      show r.timeouts.length ≤ n
+      omega
+    rw [if_pos h1]
+    have h2 : (st n).lastRto = last := rfl
+    rw [h2, if_neg (Nat.lt_irrefl _)]
+
+/-! ### counting retransmissions -/
+
+theorem reqPolls_cons (r : Req) (now : Nat) (nows : List Nat) :
+    reqPolls r (now :: nows) = (reqPoll r now).2 :: reqPolls (reqPoll r now).1 nows := rfl
+
+/-- one poll of a transmitted, not send-cancelled request: either the request is unchanged and the
+    reply is not a hand-out (and is a time-out only when no interval is left), or the request is
+    handed out and one interval is consumed -/
+theorem reqPoll_count_cases (r : Req) (now : Nat) (hl : r.lastSend.isSome = true)
+    (hs : r.sendCancelled = false) :
+    ((reqPoll r now).1 = r ∧ (reqPoll r now).2 ≠ .sendData ∧
+      ((reqPoll r now).2 = .timedOut → r.timeouts.length ≤ r.timeoutI)) ∨
+    ((reqPoll r now).2 = .sendData ∧ r.timeoutI < r.timeouts.length ∧
+      (reqPoll r now).1.timeoutI = r.timeoutI + 1 ∧ (reqPoll r now).1.timeouts = r.timeouts ∧
+      (reqPoll r now).1.lastSend.isSome = true ∧ (reqPoll r now).1.sendCancelled = false) := by
+  cases hc : r.recvCancelled with
+  | true => left; simp [reqPoll_recvCancelled r now hc]
+  | false =>
+    obtain ⟨h, hh⟩ : ∃ h : Nat, r.lastSend = some h := Option.isSome_iff_exists.mp hl
+    rw [reqPoll_some r now h hc hh]
+    by_cases hk : r.timeouts.length ≤ r.timeoutI
+    · rw [if_pos hk]
+      left
+      by_cases hn : now < h + msNs r.lastRto
+      · rw [if_pos hn]; simp
+      · rw [if_neg hn]; simp [hk]
+    · rw [if_neg hk]
+      by_cases hn : now < h + msNs (r.timeouts.getD r.timeoutI 0)
+      · rw [if_pos hn]; left; simp
+      · rw [if_neg hn]
+        right
+        simp [hs]
+        omega
+
+theorem retransmit_count (r : Req) (nows : List Nat) (hl : r.lastSend.isSome = true)
+    (hs : r.sendCancelled = false) (hk : r.timeoutI ≤ r.timeouts.length) :
+    ((reqPolls r nows).filter (· = .sendData)).length ≤ r.timeouts.length - r.timeoutI ∧
+    ∀ i, (reqPolls r nows)[i]? = some .timedOut →
+      (((reqPolls r nows).take i).filter (· = .sendData)).length = r.timeouts.length - r.timeoutI := by
+  induction nows generalizing r with
+  | nil => simp [reqPolls]
+  | cons now nows ih =>
+    rw [reqPolls_cons]
+    rcases reqPoll_count_cases r now hl hs with ⟨h1, h2, h3⟩ | ⟨h1, h2, h3, h4, h5, h6⟩
+    · rw [h1]
+      have ih' := ih r hl hs hk
+      refine ⟨?_, ?_⟩
+      · rw [List.filter_cons_of_neg (by simpa using h2)]
+        exact ih'.1
+      · intro i hi
+        cases i with
+        | zero =>
+          have : (reqPoll r now).2 = .timedOut := by simpa using hi
+          have := h3 this
+          simp
+          omega
+        | succ i =>
+          rw [List.take_succ_cons, List.filter_cons_of_neg (by simpa using h2)]
+          exact ih'.2 i (by simpa using hi)
+    · have ih' := ih (reqPoll r now).1 h5 h6 (by rw [h3, h4]; omega)
+      rw [h3, h4] at ih'
+      refine ⟨?_, ?_⟩
+      · rw [List.filter_cons_of_pos (by simpa using h1), List.length_cons]
+        have := ih'.1
+        omega
+      · intro i hi
+        cases i with
+        | zero =>
+          have : (reqPoll r now).2 = .timedOut := by simpa using hi
+          rw [h1] at this
+          cases this
+        | succ i =>
+          rw [List.take_succ_cons, List.filter_cons_of_pos (by simpa using h1), List.length_cons]
+          have := ih'.2 i (by simpa using hi)
+          omega
+
+/-! ### association lists -/
+
+theorem lookup_mem (out : List (Nat × Req)) (t : Nat) (r : Req) (h : lookup out t = some r) :
+    (t, r) ∈ out := by
+  induction out with
+  | nil => simp at h
+  | cons p out ih =>
+    rw [lookup_cons] at h
+    by_cases hp : p.1 = t
+    · rw [if_pos hp] at h
+      have : p = (t, r) := Prod.ext hp (by simpa using h)
+      rw [this]; exact List.mem_cons_self
+    · rw [if_neg hp] at h
+      exact List.mem_cons_of_mem _ (ih h)
+
+theorem lookup_of_mem_nodup (out : List (Nat × Req)) (p : Nat × Req)
+    (hn : (out.map (·.1)).Nodup) (hp : p ∈ out) : lookup out p.1 = some p.2 := by
+  induction out with
+  | nil => simp at hp
+  | cons q out ih =>
+    rw [List.map_cons, List.nodup_cons] at hn
+    rw [lookup_cons]
+    rcases List.mem_cons.mp hp with e | hm
+    · rw [e]; simp
+    · have hne : ¬ q.1 = p.1 := by
+        intro e
+        exact hn.1 (e ▸ List.mem_map_of_mem hm)
+      rw [if_neg hne]
+      exact ih hn.2 hm
+
+theorem mem_remove (out : List (Nat × Req)) (t : Nat) (p : Nat × Req) (h : p ∈ remove out t) :
+    p ∈ out := (List.mem_filter.mp h).1
+
+theorem mem_update (out : List (Nat × Req)) (t : Nat) (f : Req → Req) (p : Nat × Req)
+    (h : p ∈ update out t f) : p ∈ out ∨ ∃ r, (t, r) ∈ out ∧ p = (t, f r) := by
+  unfold update at h
+  obtain ⟨q, hq, rfl⟩ := List.mem_map.mp h
+  by_cases hqt : q.1 = t
+  · right
+    refine ⟨q.2, ?_, by simp [hqt]⟩
+    rw [← hqt]; exact hq
+  · left; simpa [hqt] using hq
+
+theorem nodup_remove (out : List (Nat × Req)) (t : Nat) (hn : (out.map (·.1)).Nodup) :
+    ((remove out t).map (·.1)).Nodup := by
+  rw [keys_remove]
+  exact hn.filter _
+
+theorem nodup_insert (out : List (Nat × Req)) (t : Nat) (r : Req) (hn : (out.map (·.1)).Nodup) :
+    ((insert out t r).map (·.1)).Nodup := by
+  unfold insert
+  rw [List.map_cons, List.nodup_cons]
+  refine ⟨?_, nodup_remove out t hn⟩
+  rw [keys_remove]
+  simp
+
+/-! ### the shape of one step -/
+
+theorem validatedPeer_out_time (s : State) (a : SockAddr) : (validatedPeer s a).out = s.out := by
+  unfold validatedPeer
+  split <;> rfl
+
+/-- the transaction `agentPoll` decides to serve_time -/
+def chosen (s : State) (now : Nat) (pick : Option Nat) : Option Nat :=
+  match pick with
+    | some t => if (ready s now).contains t then some t else (ready s now).head?
+    | none => (ready s now).head?
+
+/-- serving one outstanding request -/
+def serve_time (s : State) (now : Nat) (tid : Nat) (r : Req) : State × Out :=
+  match (reqPoll r now).2 with
+  | .sendData => ({ s with out := update s.out tid fun _ => (reqPoll r now).1 },
+      .transmit (some tid) (mkTransmit s (reqPoll r now).1))
+  | .timedOut => ({ s with out := remove s.out tid }, .timedOut tid)
+  | .cancelled => ({ s with out := remove s.out tid }, .cancelled tid)
+  | .waitUntil t => (s, .waitUntil t)
+
+theorem agentPoll_eq_time (s : State) (now : Nat) (pick : Option Nat) :
+    agentPoll s now pick =
+      match chosen s now pick with
+      | none => (s, .waitUntil ((minWait s now).getD (now + msNs 3600000)))
+      | some tid =>
+        match lookup s.out tid with
+        | none => (s, .waitUntil (now + msNs 3600000))
+        | some r => serve_time s now tid r := by
+  unfold agentPoll chosen serve_time
+  rfl
+
+theorem step_sendReq_eq (s : State) (tid : Nat) (bytes : Bytes) (hadCreds : Bool) (to : SockAddr)
+    (now : Nat) :
+    step s (.sendReq tid bytes hadCreds to now) =
+      if (lookup s.out tid).isSome then (s, .inProgress) else
+      match (reqPoll (Req.new s.transport bytes hadCreds to) now).2 with
+      | .sendData => ({ s with out := insert s.out tid (reqPoll (Req.new s.transport bytes hadCreds to) now).1 },
+          .transmit (some tid) (mkTransmit s (reqPoll (Req.new s.transport bytes hadCreds to) now).1))
+      | _ => (s, .protocolViolation) := by
+  unfold step
+  rfl
+
+/-- how one call may change the table of outstanding requests -/
+def OutShape (out out' : List (Nat × Req)) : Prop :=
+    out' = out ∨
+    (∃ tid r, r.lastSend.isSome = true ∧ out' = insert out tid r) ∨
+    (∃ tid, out' = remove out tid) ∨
+    (∃ tid r, (tid, r) ∈ out ∧ out' = insert (remove out tid) tid r) ∨
+    (∃ tid f, (∀ r : Req, r.lastSend.isSome = true → (f r).lastSend.isSome = true) ∧
+      out' = update out tid f)
+
+theorem step_out (s : State) (op : Op) : OutShape s.out (step s op).1.out := by
+  cases op with
+  | sendReq tid bytes hadCreds to now =>
+    rw [step_sendReq_eq]
+    by_cases h : (lookup s.out tid).isSome = true
+    · rw [if_pos h]; left; rfl
+    · rw [if_neg h]
+      split
+      · next hsd =>
+        right; left
+        exact ⟨tid, _, by rw [reqPoll_sendData_lastSend _ _ hsd]; rfl, rfl⟩
+      · left; rfl
+  | sendOther bytes to => left; rfl
+  | handle m src =>
+    unfold step
+    cases hr : m.isResponse with
+    | false =>
+      simp only [hr, Bool.false_eq_true, ↓reduceIte]
+      left
+      rw [validatedPeer_out_time]
+    | true =>
+      simp only [hr, ↓reduceIte]
+      cases hl : lookup s.out m.tid with
+      | none => left; rfl
+      | some r =>
+        have hmem := lookup_mem _ _ _ hl
+        simp only []
+        cases hcr : r.hadCreds with
+        | false =>
+          simp only [Bool.false_eq_true, ↓reduceIte]
+          right; right; left
+          exact ⟨m.tid, by rw [validatedPeer_out_time]⟩
+        | true =>
+          simp only [↓reduceIte]
+          cases hk : s.remoteCreds with
+          | none => right; right; right; left; exact ⟨m.tid, r, hmem, rfl⟩
+          | some k =>
+            simp only []
+            cases hv : m.validUnder k with
+            | true =>
+              simp only [↓reduceIte]
+              right; right; left
+              exact ⟨m.tid, by rw [validatedPeer_out_time]⟩
+            | false =>
+              simp only [Bool.false_eq_true, ↓reduceIte]
+              right; right; right; left; exact ⟨m.tid, r, hmem, rfl⟩
+  | poll now pick =>
+    show OutShape s.out (agentPoll s now pick).1.out
+    rw [agentPoll_eq_time]
+    cases chosen s now pick with
+    | none => left; rfl
+    | some tid =>
+      simp only []
+      cases hl : lookup s.out tid with
+      | none => left; rfl
+      | some r =>
+        simp only []
+        unfold serve_time
+        split
+        · next hsd =>
+          right; right; right; right
+          exact ⟨tid, fun _ => (reqPoll r now).1,
+            fun _ _ => by rw [reqPoll_sendData_lastSend _ _ hsd]; rfl, rfl⟩
+        · right; right; left; exact ⟨tid, rfl⟩
+        · right; right; left; exact ⟨tid, rfl⟩
+        · left; rfl
+  | cancel tid =>
+    right; right; right; right
+    exact ⟨tid, fun r => { r with sendCancelled := true, recvCancelled := true }, fun _ h => h, rfl⟩
+  | cancelRtx tid =>
+    right; right; right; right
+    exact ⟨tid, fun r => { r with sendCancelled := true }, fun _ h => h, rfl⟩
+  | configure tid rto n last =>
+    right; right; right; right
+    refine ⟨tid, fun r => configureReq s.transport r rto n last, fun r h => ?_, rfl⟩
+    unfold configureReq
+    split <;> exact h
+  | setRemoteCreds k => left; rfl
+
+/-! ### invariants of reachable states -/
+
+theorem keysNodup_step_time (s : State) (op : Op) (h : KeysNodup s) : KeysNodup (step s op).1 := by
+  unfold KeysNodup at h ⊢
+  rcases step_out s op with e | ⟨tid, r, -, e⟩ | ⟨tid, e⟩ | ⟨tid, r, -, e⟩ | ⟨tid, f, -, e⟩ <;> rw [e]
+  · exact h
+  · exact nodup_insert _ _ _ h
+  · exact nodup_remove _ _ h
+  · exact nodup_insert _ _ _ (nodup_remove _ _ h)
+  · rw [keys_update]; exact h
+
+theorem keysNodup_of_reachable_time (s : State) (hr : Reachable s) : KeysNodup s :=
+  Reachable.induction (P := KeysNodup) (fun _ _ => List.nodup_nil) keysNodup_step_time hr
+
+theorem allSent_step (s : State) (op : Op) (h : AllSent s) : AllSent (step s op).1 := by
+  unfold AllSent at h ⊢
+  intro p hp
+  rcases step_out s op with e | ⟨tid, r, hr, e⟩ | ⟨tid, e⟩ | ⟨tid, r, hr, e⟩ | ⟨tid, f, hf, e⟩ <;>
+    rw [e] at hp
+  · exact h p hp
+  · rcases List.mem_cons.mp hp with e' | hm
+    · rw [e']; exact hr
+    · exact h p (mem_remove _ _ _ hm)
+  · exact h p (mem_remove _ _ _ hp)
+  · rcases List.mem_cons.mp hp with e' | hm
+    · rw [e']; exact h _ hr
+    · exact h p (mem_remove _ _ _ (mem_remove _ _ _ hm))
+  · rcases mem_update _ _ _ _ hp with hm | ⟨r, hm, e'⟩
+    · exact h p hm
+    · rw [e']; exact hf r (h _ hm)
+
+theorem allSent_of_reachable (s : State) (hr : Reachable s) : AllSent s :=
+  Reachable.induction (P := AllSent) (fun _ _ p hp => by cases hp) allSent_step hr
+
+/-! ### `ready`, `minWait`, `agentPoll` -/
+
+theorem mem_ready_iff (s : State) (now tid : Nat) :
+    tid ∈ ready s now ↔ ∃ p ∈ s.out, p.1 = tid ∧ ∀ t, (reqPoll p.2 now).2 ≠ .waitUntil t := by
+  unfold ready
+  rw [List.mem_map]
+  constructor
+  · rintro ⟨p, hp, rfl⟩
+    rw [List.mem_filter] at hp
+    refine ⟨p, hp.1, rfl, ?_⟩
+    intro t e
+    have h2 := hp.2
+    simp only [e] at h2
+    cases h2
+  · rintro ⟨p, hp, rfl, hw⟩
+    refine ⟨p, List.mem_filter.mpr ⟨hp, ?_⟩, rfl⟩
+    show (match (reqPoll p.2 now).2 with | .waitUntil _ => false | _ => true) = true
+    generalize (reqPoll p.2 now).2 = x at hw
+    cases x with
+    | waitUntil t => exact absurd rfl (hw t)
+    | _ => rfl
+
+theorem chosen_eq_none (s : State) (now : Nat) (pick : Option Nat) (h : chosen s now pick = none) :
+    ready s now = [] := by
+  unfold chosen at h
+  cases pick with
+  | none => simpa using h
+  | some t =>
+    simp only [] at h
+    by_cases hc : (ready s now).contains t = true
+    · rw [if_pos hc] at h; cases h
+    · rw [if_neg hc] at h; simpa using h
+
+theorem chosen_eq_some (s : State) (now : Nat) (pick : Option Nat) (tid : Nat)
+    (h : chosen s now pick = some tid) : tid ∈ ready s now := by
+  unfold chosen at h
+  cases pick with
+  | none => exact List.mem_of_mem_head? (by simpa using h)
+  | some t =>
+    simp only [] at h
+    by_cases hc : (ready s now).contains t = true
+    · rw [if_pos hc] at h
+      have : t = tid := by simpa using h
+      rw [← this]; simpa using hc
+    · rw [if_neg hc] at h
+      exact List.mem_of_mem_head? (by simpa using h)
+
+/-- `agentPoll` either finds every request waiting and reports `minWait`, or serves a request
+    that is not waiting -/
+theorem agentPoll_cases_time (s : State) (hn : KeysNodup s) (now : Nat) (pick : Option Nat) :
+    ((∀ p ∈ s.out, ∃ t, (reqPoll p.2 now).2 = .waitUntil t) ∧
+      agentPoll s now pick = (s, .waitUntil ((minWait s now).getD (now + msNs 3600000)))) ∨
+    (∃ tid r, lookup s.out tid = some r ∧ (∀ t, (reqPoll r now).2 ≠ .waitUntil t) ∧
+      agentPoll s now pick = serve_time s now tid r) := by
+  rw [agentPoll_eq_time]
+  cases hch : chosen s now pick with
+  | none =>
+    left
+    refine ⟨fun p hp => ?_, rfl⟩
+    have hre := chosen_eq_none s now pick hch
+    cases hx : (reqPoll p.2 now).2 with
+    | waitUntil t => exact ⟨t, rfl⟩
+    | _ =>
+      have : p.1 ∈ ready s now :=
+        (mem_ready_iff s now p.1).mpr ⟨p, hp, rfl, fun t e => by rw [hx] at e; cases e⟩
+      rw [hre] at this
+      cases this
+  | some tid =>
+    right
+    obtain ⟨p, hp, rfl, hw⟩ := (mem_ready_iff s now tid).mp (chosen_eq_some s now pick tid hch)
+    have hl := lookup_of_mem_nodup s.out p hn hp
+    exact ⟨p.1, p.2, hl, hw, by simp only [hl]⟩
+
+theorem serve_event (s : State) (now tid : Nat) (r : Req)
+    (hw : ∀ t, (reqPoll r now).2 ≠ .waitUntil t) :
+    match (serve_time s now tid r).2 with
+    | .transmit (some _) _ => True
+    | .timedOut _ => True
+    | .cancelled _ => True
+    | _ => False := by
+  unfold serve_time
+  cases hx : (reqPoll r now).2 with
+  | waitUntil t => exact absurd hx (hw t)
+  | sendData => exact True.intro
+  | timedOut => exact True.intro
+  | cancelled => exact True.intro
+
+theorem serve_ne_wait (s : State) (now tid : Nat) (r : Req)
+    (hw : ∀ t, (reqPoll r now).2 ≠ .waitUntil t) (t : Nat) :
+    (serve_time s now tid r).2 ≠ .waitUntil t := by
+  have := serve_event s now tid r hw
+  intro e
+  rw [e] at this
+  exact this
+
+/-- one step of the `minWait` fold -/
+def minStep_time (now : Nat) (acc : Option Time) (p : Nat × Req) : Option Time :=
+  match (reqPoll p.2 now).2 with
+  | .waitUntil t => (match acc with
+    | none => some t
+    | some a => if t < a then some t else some a)
+  | _ => acc
+
+theorem minWait_eq_time (s : State) (now : Nat) : minWait s now = s.out.foldl (minStep_time now) none := rfl
+
+theorem minStep_some (now a : Nat) (p : Nat × Req) :
+    ∃ a' : Nat, minStep_time now (some a) p = some a' ∧ a' ≤ a ∧
+      (a' = a ∨ (reqPoll p.2 now).2 = .waitUntil a') ∧
+      ∀ d : Nat, (reqPoll p.2 now).2 = .waitUntil d → a' ≤ d := by
+  unfold minStep_time
+  cases hx : (reqPoll p.2 now).2 with
+  | waitUntil t =>
+    have t' : Nat := t
+    by_cases hlt : t < a
+    · refine ⟨t, by simp [hlt], Nat.le_of_lt hlt, Or.inr rfl, fun d hd => ?_⟩
+      cases hd; exact Nat.le_refl _
+    · refine ⟨a, by simp [hlt], Nat.le_refl _, Or.inl rfl, fun d hd => ?_⟩
+      cases hd; exact Nat.not_lt.mp hlt
+  | sendData => exact ⟨a, rfl, Nat.le_refl _, Or.inl rfl, fun d hd => by cases hd⟩
+  | timedOut => exact ⟨a, rfl, Nat.le_refl _, Or.inl rfl, fun d hd => by cases hd⟩
+  | cancelled => exact ⟨a, rfl, Nat.le_refl _, Or.inl rfl, fun d hd => by cases hd⟩
+
+theorem foldl_minStep_some (now : Nat) (l : List (Nat × Req)) (a : Nat) :
+    ∃ m : Nat, l.foldl (minStep_time now) (some a) = some m ∧ m ≤ a ∧
+      (m = a ∨ ∃ p ∈ l, (reqPoll p.2 now).2 = .waitUntil m) ∧
+      ∀ p ∈ l, ∀ d : Nat, (reqPoll p.2 now).2 = .waitUntil d → m ≤ d := by
+  induction l generalizing a with
+  | nil => exact ⟨a, rfl, Nat.le_refl _, Or.inl rfl, fun p hp => by cases hp⟩
+  | cons q l ih =>
+    obtain ⟨a', h1, h2, h3, h4⟩ := minStep_some now a q
+    obtain ⟨m, k1, k2, k3, k4⟩ := ih a'
+    refine ⟨m, by rw [List.foldl_cons, h1, k1], Nat.le_trans k2 h2, ?_, ?_⟩
+    · rcases k3 with e | ⟨p, hp, hw⟩
+      · rcases h3 with e' | hw
+        · left; rw [e, e']
+        · right; exact ⟨q, List.mem_cons_self, by rw [e]; exact hw⟩
+      · right; exact ⟨p, List.mem_cons_of_mem _ hp, hw⟩
+    · intro p hp d hd
+      rcases List.mem_cons.mp hp with e | hm
+      · subst e; exact Nat.le_trans k2 (h4 d hd)
+      · exact k4 p hm d hd
+
+/-- with every outstanding request waiting (and at least one), `minWait` is the least wake-up -/
+theorem minWait_spec (s : State) (now : Nat) (hne : s.out ≠ [])
+    (hall : ∀ p ∈ s.out, ∃ t, (reqPoll p.2 now).2 = .waitUntil t) :
+    ∃ m : Nat, minWait s now = some m ∧ (∃ p ∈ s.out, (reqPoll p.2 now).2 = .waitUntil m) ∧
+      ∀ p ∈ s.out, ∀ d : Nat, (reqPoll p.2 now).2 = .waitUntil d → m ≤ d := by
+  rw [minWait_eq_time]
+  cases hout : s.out with
+  | nil => exact absurd hout hne
+  | cons q l =>
+    obtain ⟨t0, ht0⟩ := hall q (by rw [hout]; exact List.mem_cons_self)
+    have hq : minStep_time now none q = some t0 := by unfold minStep_time; rw [ht0]
+    obtain ⟨m, k1, k2, k3, k4⟩ := foldl_minStep_some now l t0
+    refine ⟨m, by rw [List.foldl_cons, hq, k1], ?_, ?_⟩
+    · rcases k3 with e | ⟨p, hp, hw⟩
+      · exact ⟨q, List.mem_cons_self, by rw [e]; exact ht0⟩
+      · exact ⟨p, List.mem_cons_of_mem _ hp, hw⟩
+    · intro p hp d hd
+      rcases List.mem_cons.mp hp with e | hm
+      · subst e
+        rw [ht0] at hd
+        cases hd
+        exact k2
+      · exact k4 p hm d hd
+
+/-- `WaitUntil(t)` from a poll with requests outstanding -/
+theorem poll_wait_spec (s : State) (hn : KeysNodup s) (ha : AllSent s) (now t : Nat)
+    (pick : Option Nat) (hne : s.out ≠ []) (h : (agentPoll s now pick).2 = .waitUntil t) :
+    agentPoll s now pick = (s, .waitUntil t) ∧ now < t ∧
+    (∃ p ∈ s.out, p.2.deadline = some t) ∧
+    (∀ p ∈ s.out, p.2.recvCancelled = false ∧ ∃ d : Nat, p.2.deadline = some d ∧ t ≤ d) := by
+  rcases agentPoll_cases_time s hn now pick with ⟨hall, e⟩ | ⟨tid, r, -, hw, e⟩
+  · obtain ⟨m, k1, ⟨p, hp, hpw⟩, k3⟩ := minWait_spec s now hne hall
+    rw [e, k1] at h
+    have hm : m = t := by simpa using h
+    subst hm
+    have hp' := (reqPoll_wait_iff p.2 now m (ha p hp)).mp hpw
+    refine ⟨by rw [e, k1]; rfl, hp'.2.2, ⟨p, hp, hp'.2.1⟩, fun q hq => ?_⟩
+    obtain ⟨d, hd⟩ := hall q hq
+    have hq' := (reqPoll_wait_iff q.2 now d (ha q hq)).mp hd
+    exact ⟨hq'.1, d, hq'.2.1, k3 q hq d hd⟩
+  · rw [e] at h
+    exact absurd h (serve_ne_wait s now tid r hw t)
+
+/-- if every outstanding request is still before its deadline the poll only waits -/
+theorem poll_wait_of (s : State) (hn : KeysNodup s) (ha : AllSent s) (now : Nat) (pick : Option Nat)
+    (hall : ∀ p ∈ s.out, p.2.recvCancelled = false ∧ ∃ d : Nat, p.2.deadline = some d ∧ now < d) :
+    ∃ t : Nat, (agentPoll s now pick).2 = .waitUntil t := by
+  rcases agentPoll_cases_time s hn now pick with ⟨-, e⟩ | ⟨tid, r, hl, hw, -⟩
+  · exact ⟨_, by rw [e]⟩
+  · have hm := lookup_mem _ _ _ hl
+    obtain ⟨hc, d, hd, hlt⟩ := hall _ hm
+    exact absurd ((reqPoll_wait_iff r now d (ha _ hm)).mpr ⟨hc, hd, hlt⟩) (hw d)
+
+theorem poll_wait_stable (s : State) (hn : KeysNodup s) (ha : AllSent s) (now t : Nat)
+    (pick : Option Nat) (hne : s.out ≠ []) (h : (agentPoll s now pick).2 = .waitUntil t)
+    (now' : Nat) (pick' : Option Nat) (h2 : now' < t) :
+    agentPoll s now' pick' = (s, .waitUntil t) := by
+  obtain ⟨-, -, ⟨p, hp, hpd⟩, hall⟩ := poll_wait_spec s hn ha now t pick hne h
+  obtain ⟨t', ht'⟩ := poll_wait_of s hn ha now' pick' (fun q hq => by
+    obtain ⟨hc, d, hd, hle⟩ := hall q hq
+    exact ⟨hc, d, hd, Nat.lt_of_lt_of_le h2 hle⟩)
+  obtain ⟨e, -, ⟨p', hp', hpd'⟩, hall'⟩ := poll_wait_spec s hn ha now' t' pick' hne ht'
+  obtain ⟨-, d, hd, hle⟩ := hall p' hp'
+  obtain ⟨-, d', hd', hle'⟩ := hall' p hp
+  rw [hpd'] at hd
+  rw [hpd] at hd'
+  have e1 : t' = d := by simpa using hd
+  have e2 : t = d' := by simpa using hd'
+  have : t' = t := by omega
+  rw [e, this]
+
+theorem poll_wait_then_event (s : State) (hn : KeysNodup s) (ha : AllSent s) (now t : Nat)
+    (pick : Option Nat) (hne : s.out ≠ []) (h : (agentPoll s now pick).2 = .waitUntil t)
+    (pick' : Option Nat) :
+    match (agentPoll s t pick').2 with
+    | .transmit (some _) _ => True
+    | .timedOut _ => True
+    | .cancelled _ => True
+    | _ => False := by
+  obtain ⟨-, -, ⟨p, hp, hpd⟩, -⟩ := poll_wait_spec s hn ha now t pick hne h
+  rcases agentPoll_cases_time s hn t pick' with ⟨hall, -⟩ | ⟨tid, r, -, hw, e⟩
+  · obtain ⟨d, hd⟩ := hall p hp
+    have := (reqPoll_wait_iff p.2 t d (ha p hp)).mp hd
+    rw [hpd] at this
+    have e1 : t = d := by simpa using this.2.1
+    have := this.2.2
+    omega
+  · rw [e]
+    exact serve_event s t tid r hw
+
+theorem poll_idle (s : State) (now : Nat) (pick : Option Nat) (h : s.out = []) :
+    agentPoll s now pick = (s, .waitUntil (now + msNs 3600000)) := by
+  have hr : ready s now = [] := by unfold ready; rw [h]; rfl
+  have hc : chosen s now pick = none := by
+    unfold chosen
+    cases pick with
+    | none => rw [hr]; rfl
+    | some t => rw [hr]; rfl
+  rw [agentPoll_eq_time, hc, minWait_eq_time, h]
+  rfl
+
+/-! ### an agent with a single outstanding request -/
+
+theorem poll_single (tr : Transport) (loc : SockAddr) (rc : Option Key) (v : List SockAddr)
+    (tid : Nat) (r : Req) (now : Nat) (pick : Option Nat) :
+    agentPoll ⟨tr, loc, rc, v, [(tid, r)]⟩ now pick = serve_time ⟨tr, loc, rc, v, [(tid, r)]⟩ now tid r := by
+  have hn : KeysNodup ⟨tr, loc, rc, v, [(tid, r)]⟩ := by simp [KeysNodup]
+  rcases agentPoll_cases_time _ hn now pick with ⟨hall, e⟩ | ⟨tid', r', hl, -, e⟩
+  · obtain ⟨m, k1, ⟨p, hp, hpw⟩, -⟩ := minWait_spec _ now (by simp) hall
+    have hp' : p = (tid, r) := by simpa using hp
+    subst hp'
+    rw [e, k1]
+    unfold serve_time
+    simp only [hpw]
+    rfl
+  · have hl' : lookup [(tid, r)] tid' = some r' := hl
+    rw [lookup_cons] at hl'
+    by_cases ht : tid = tid'
+    · subst ht
+      have : r = r' := by simpa using hl'
+      subst this
+      exact e
+    · simp [ht] at hl'
+
+theorem update_single (tid : Nat) (r : Req) (f : Req → Req) :
+    update [(tid, r)] tid f = [(tid, f r)] := by
+  simp [update]
+
+theorem remove_single (tid : Nat) (r : Req) : remove [(tid, r)] tid = [] := by
+  simp [remove]
+
+theorem poll_single_send (tr : Transport) (loc : SockAddr) (rc : Option Key) (v : List SockAddr)
+    (tid : Nat) (r r' : Req) (now : Nat) (pick : Option Nat) (hp : reqPoll r now = (r', .sendData)) :
+    step ⟨tr, loc, rc, v, [(tid, r)]⟩ (.poll now pick) =
+      (⟨tr, loc, rc, v, [(tid, r')]⟩, .transmit (some tid) ⟨r'.bytes, tr, loc, r'.to⟩) := by
+  show agentPoll _ now pick = _
+  rw [poll_single]
+  unfold serve_time
+  simp only [hp, update_single]
+  rfl
+
+theorem poll_single_wait (tr : Transport) (loc : SockAddr) (rc : Option Key) (v : List SockAddr)
+    (tid : Nat) (r r' : Req) (now t : Nat) (pick : Option Nat)
+    (hp : reqPoll r now = (r', .waitUntil t)) :
+    step ⟨tr, loc, rc, v, [(tid, r)]⟩ (.poll now pick) =
+      (⟨tr, loc, rc, v, [(tid, r)]⟩, .waitUntil t) := by
+  show agentPoll _ now pick = _
+  rw [poll_single]
+  unfold serve_time
+  simp only [hp]
+
+theorem poll_single_timeout (tr : Transport) (loc : SockAddr) (rc : Option Key) (v : List SockAddr)
+    (tid : Nat) (r r' : Req) (now : Nat) (pick : Option Nat)
+    (hp : reqPoll r now = (r', .timedOut)) :
+    step ⟨tr, loc, rc, v, [(tid, r)]⟩ (.poll now pick) =
+      (⟨tr, loc, rc, v, []⟩, .timedOut tid) := by
+  show agentPoll _ now pick = _
+  rw [poll_single]
+  unfold serve_time
+  simp only [hp, remove_single]
+
+theorem trace_cons (s : State) (op : Op) (ops : List Op) :
+    trace s (op :: ops) = (op, (step s op).2) :: trace (step s op).1 ops := rfl
+
+theorem trace_nil (s : State) : trace s [] = [] := rfl
+
+/-! ### the default schedules, step by step -/
+
+theorem reqPoll_wait_mid (r : Req) (now h d : Nat) (hc : r.recvCancelled = false)
+    (hl : r.lastSend = some h) (hk : r.timeoutI < r.timeouts.length)
+    (x : Nat) (hx : r.timeouts.getD r.timeoutI 0 = x) (hd : h + msNs x = d) (hlt : now < d) :
+    reqPoll r now = (r, .waitUntil d) := by
+  subst hx hd
+  rw [reqPoll_some r now h hc hl, if_neg (Nat.not_le.mpr hk), if_pos hlt]
+
+theorem reqPoll_wait_last (r : Req) (now h d : Nat) (hc : r.recvCancelled = false)
+    (hl : r.lastSend = some h) (hk : r.timeouts.length ≤ r.timeoutI)
+    (x : Nat) (hx : r.lastRto = x) (hd : h + msNs x = d) (hlt : now < d) :
+    reqPoll r now = (r, .waitUntil d) := by
+  subst hx hd
+  rw [reqPoll_some r now h hc hl, if_pos hk, if_pos hlt]
+
+theorem reqPoll_retransmit (r : Req) (now h : Nat) (hc : r.recvCancelled = false)
+    (hs : r.sendCancelled = false) (hl : r.lastSend = some h) (hk : r.timeoutI < r.timeouts.length)
+    (x : Nat) (hx : r.timeouts.getD r.timeoutI 0 = x) (hd : h + msNs x ≤ now) :
+    reqPoll r now = ({ r with timeoutI := r.timeoutI + 1, lastSend := some now }, .sendData) := by
+  subst hx
+  rw [reqPoll_some r now h hc hl, if_neg (Nat.not_le.mpr hk), if_neg (Nat.not_lt.mpr hd)]
+  simp [hs]
+
+theorem reqPoll_timeout (r : Req) (now h : Nat) (hc : r.recvCancelled = false)
+    (hl : r.lastSend = some h) (hk : r.timeouts.length ≤ r.timeoutI)
+    (x : Nat) (hx : r.lastRto = x) (hd : h + msNs x ≤ now) : reqPoll r now = (r, .timedOut) := by
+  subst hx
+  rw [reqPoll_some r now h hc hl, if_pos hk, if_neg (Nat.not_lt.mpr hd)]
+
+/-- a default UDP request after `k` retransmissions, last handed out at `h` -/
+def udpReq (b : Bytes) (to : SockAddr) (k h : Nat) : Req :=
+  ⟨false, b, to, [500, 1000, 2000, 4000, 8000, 16000], 8000, false, false, k, some h⟩
+
+/-- a fresh agent with exactly one outstanding request -/
+def single (tr : Transport) (loc : SockAddr) (tid : Nat) (r : Req) : State := ⟨tr, loc, none, [], [(tid, r)]⟩
+
+theorem default_udp_schedule (tid : Nat) (b : Bytes) (to loc : SockAddr) :
+    let tx : Out := .transmit (some tid) ⟨b, .udp, loc, to⟩
+    (trace (State.init .udp loc)
+      [.sendReq tid b false to 0, .poll 0 none, .poll (msNs 499) none, .poll (msNs 500) none,
+       .poll (msNs 1500) none, .poll (msNs 3500) none, .poll (msNs 7500) none,
+       .poll (msNs 15499) none, .poll (msNs 15500) none, .poll (msNs 31500) none,
+       .poll (msNs 39499) none, .poll (msNs 39500) none]).map (·.2) =
+    [tx, .waitUntil (msNs 500), .waitUntil (msNs 500), tx, tx, tx, tx, .waitUntil (msNs 15500), tx, tx,
+     .waitUntil (msNs 39500), .timedOut tid] := by
+  intro tx
+  have e0 : step (State.init .udp loc) (.sendReq tid b false to 0) =
+      (single .udp loc tid (udpReq b to 0 0), tx) := by
+    rw [step_sendReq_eq]
+    rfl
+  have e1 : step (single .udp loc tid (udpReq b to 0 0)) (.poll 0 none) =
+      (single .udp loc tid (udpReq b to 0 0), .waitUntil (msNs 500)) :=
+    poll_single_wait _ _ _ _ _ _ _ _ _ _
+      (reqPoll_wait_mid (udpReq b to 0 0) 0 0 (msNs 500) rfl rfl (by decide : 0 < 6) 500 rfl
+        (by decide : 0 + msNs 500 = msNs 500) (by decide : 0 < msNs 500))
+  have e2 : step (single .udp loc tid (udpReq b to 0 0)) (.poll (msNs 499) none) =
+      (single .udp loc tid (udpReq b to 0 0), .waitUntil (msNs 500)) :=
+    poll_single_wait _ _ _ _ _ _ _ _ _ _
+      (reqPoll_wait_mid (udpReq b to 0 0) (msNs 499) 0 (msNs 500) rfl rfl (by decide : 0 < 6) 500 rfl
+        (by decide : 0 + msNs 500 = msNs 500) (by decide : msNs 499 < msNs 500))
+  have e3 : step (single .udp loc tid (udpReq b to 0 0)) (.poll (msNs 500) none) =
+      (single .udp loc tid (udpReq b to 1 (msNs 500)), tx) :=
+    poll_single_send _ _ _ _ _ _ _ _ _
+      (reqPoll_retransmit (udpReq b to 0 0) (msNs 500) 0 rfl rfl rfl (by decide : 0 < 6) 500 rfl
+        (by decide : 0 + msNs 500 ≤ msNs 500))
+  have e4 : step (single .udp loc tid (udpReq b to 1 (msNs 500))) (.poll (msNs 1500) none) =
+      (single .udp loc tid (udpReq b to 2 (msNs 1500)), tx) :=
+    poll_single_send _ _ _ _ _ _ _ _ _
+      (reqPoll_retransmit (udpReq b to 1 (msNs 500)) (msNs 1500) (msNs 500) rfl rfl rfl
+        (by decide : 1 < 6) 1000 rfl (by decide : msNs 500 + msNs 1000 ≤ msNs 1500))
+  have e5 : step (single .udp loc tid (udpReq b to 2 (msNs 1500))) (.poll (msNs 3500) none) =
+      (single .udp loc tid (udpReq b to 3 (msNs 3500)), tx) :=
+    poll_single_send _ _ _ _ _ _ _ _ _
+      (reqPoll_retransmit (udpReq b to 2 (msNs 1500)) (msNs 3500) (msNs 1500) rfl rfl rfl
+        (by decide : 2 < 6) 2000 rfl (by decide : msNs 1500 + msNs 2000 ≤ msNs 3500))
+  have e6 : step (single .udp loc tid (udpReq b to 3 (msNs 3500))) (.poll (msNs 7500) none) =
+      (single .udp loc tid (udpReq b to 4 (msNs 7500)), tx) :=
+    poll_single_send _ _ _ _ _ _ _ _ _
+      (reqPoll_retransmit (udpReq b to 3 (msNs 3500)) (msNs 7500) (msNs 3500) rfl rfl rfl
+        (by decide : 3 < 6) 4000 rfl (by decide : msNs 3500 + msNs 4000 ≤ msNs 7500))
+  have e7 : step (single .udp loc tid (udpReq b to 4 (msNs 7500))) (.poll (msNs 15499) none) =
+      (single .udp loc tid (udpReq b to 4 (msNs 7500)), .waitUntil (msNs 15500)) :=
+    poll_single_wait _ _ _ _ _ _ _ _ _ _
+      (reqPoll_wait_mid (udpReq b to 4 (msNs 7500)) (msNs 15499) (msNs 7500) (msNs 15500) rfl rfl
+        (by decide : 4 < 6) 8000 rfl (by decide : msNs 7500 + msNs 8000 = msNs 15500)
+        (by decide : msNs 15499 < msNs 15500))
+  have e8 : step (single .udp loc tid (udpReq b to 4 (msNs 7500))) (.poll (msNs 15500) none) =
+      (single .udp loc tid (udpReq b to 5 (msNs 15500)), tx) :=
+    poll_single_send _ _ _ _ _ _ _ _ _
+      (reqPoll_retransmit (udpReq b to 4 (msNs 7500)) (msNs 15500) (msNs 7500) rfl rfl rfl
+        (by decide : 4 < 6) 8000 rfl (by decide : msNs 7500 + msNs 8000 ≤ msNs 15500))
+  have e9 : step (single .udp loc tid (udpReq b to 5 (msNs 15500))) (.poll (msNs 31500) none) =
+      (single .udp loc tid (udpReq b to 6 (msNs 31500)), tx) :=
+    poll_single_send _ _ _ _ _ _ _ _ _
+      (reqPoll_retransmit (udpReq b to 5 (msNs 15500)) (msNs 31500) (msNs 15500) rfl rfl rfl
+        (by decide : 5 < 6) 16000 rfl (by decide : msNs 15500 + msNs 16000 ≤ msNs 31500))
+  have e10 : step (single .udp loc tid (udpReq b to 6 (msNs 31500))) (.poll (msNs 39499) none) =
+      (single .udp loc tid (udpReq b to 6 (msNs 31500)), .waitUntil (msNs 39500)) :=
+    poll_single_wait _ _ _ _ _ _ _ _ _ _
+      (reqPoll_wait_last (udpReq b to 6 (msNs 31500)) (msNs 39499) (msNs 31500) (msNs 39500) rfl rfl
+        (by decide : 6 ≤ 6) 8000 rfl (by decide : msNs 31500 + msNs 8000 = msNs 39500)
+        (by decide : msNs 39499 < msNs 39500))
+  have e11 : step (single .udp loc tid (udpReq b to 6 (msNs 31500))) (.poll (msNs 39500) none) =
+      (⟨.udp, loc, none, [], []⟩, .timedOut tid) :=
+    poll_single_timeout _ _ _ _ _ _ _ _ _
+      (reqPoll_timeout (udpReq b to 6 (msNs 31500)) (msNs 39500) (msNs 31500) rfl rfl
+        (by decide : 6 ≤ 6) 8000 rfl (by decide : msNs 31500 + msNs 8000 ≤ msNs 39500))
+  simp only [trace_cons, trace_nil, e0, e1, e2, e3, e4, e5, e6, e7, e8, e9, e10, e11, List.map_cons,
+    List.map_nil]
+
+/-- a default TCP request, handed out at `h` -/
+def tcpReq (b : Bytes) (to : SockAddr) (h : Nat) : Req :=
+  ⟨false, b, to, [], 39500, false, false, 0, some h⟩
+
+theorem default_tcp_schedule (tid : Nat) (b : Bytes) (to loc : SockAddr) :
+    (trace (State.init .tcp loc)
+      [.sendReq tid b false to 0, .poll 0 none, .poll (msNs 39499) none, .poll (msNs 39500) none]).map (·.2) =
+    [.transmit (some tid) ⟨b, .tcp, loc, to⟩, .waitUntil (msNs 39500), .waitUntil (msNs 39500),
+     .timedOut tid] := by
+  have e0 : step (State.init .tcp loc) (.sendReq tid b false to 0) =
+      (single .tcp loc tid (tcpReq b to 0), .transmit (some tid) ⟨b, .tcp, loc, to⟩) := by
+    rw [step_sendReq_eq]
+    rfl
+  have e1 : step (single .tcp loc tid (tcpReq b to 0)) (.poll 0 none) =
+      (single .tcp loc tid (tcpReq b to 0), .waitUntil (msNs 39500)) :=
+    poll_single_wait _ _ _ _ _ _ _ _ _ _
+      (reqPoll_wait_last (tcpReq b to 0) 0 0 (msNs 39500) rfl rfl (by decide : 0 ≤ 0) 39500 rfl
+        (by decide : 0 + msNs 39500 = msNs 39500) (by decide : 0 < msNs 39500))
+  have e2 : step (single .tcp loc tid (tcpReq b to 0)) (.poll (msNs 39499) none) =
+      (single .tcp loc tid (tcpReq b to 0), .waitUntil (msNs 39500)) :=
+    poll_single_wait _ _ _ _ _ _ _ _ _ _
+      (reqPoll_wait_last (tcpReq b to 0) (msNs 39499) 0 (msNs 39500) rfl rfl (by decide : 0 ≤ 0) 39500 rfl
+        (by decide : 0 + msNs 39500 = msNs 39500) (by decide : msNs 39499 < msNs 39500))
+  have e3 : step (single .tcp loc tid (tcpReq b to 0)) (.poll (msNs 39500) none) =
+      (⟨.tcp, loc, none, [], []⟩, .timedOut tid) :=
+    poll_single_timeout _ _ _ _ _ _ _ _ _
+      (reqPoll_timeout (tcpReq b to 0) (msNs 39500) 0 rfl rfl (by decide : 0 ≤ 0) 39500 rfl
+        (by decide : 0 + msNs 39500 ≤ msNs 39500))
+  simp only [trace_cons, trace_nil, e0, e1, e2, e3, List.map_cons, List.map_nil]
+
+/-! ### `cancel_retransmissions` -/
+
+theorem cancel_rtx_silent (s : State) (tid : Nat) (r : Req) (h : lookup s.out tid = some r)
+    (hc : r.sendCancelled = true) (op : Op) :
+    (∀ tx, (step s op).2 ≠ .transmit (some tid) tx) ∧
+    (∀ r', lookup (step s op).1.out tid = some r' → r'.sendCancelled = true) := by
+  have same : ∀ r', lookup s.out tid = some r' → r'.sendCancelled = true := by
+    intro r' hr'
+    rw [h] at hr'
+    cases hr'
+    exact hc
+  have upd : ∀ (t : Nat) (f : Req → Req),
+      (tid = t → (f r).sendCancelled = true) →
+      ∀ r', lookup (update s.out t f) tid = some r' → r'.sendCancelled = true := by
+    intro t f hf r' hr'
+    by_cases e : tid = t
+    · subst e
+      rw [lookup_update_self, h] at hr'
+      have : f r = r' := by simpa using hr'
+      rw [← this]
+      exact hf rfl
+    · rw [lookup_update_ne _ _ _ _ e] at hr'
+      exact same r' hr'
+  have rem : ∀ (t : Nat) r', lookup (remove s.out t) tid = some r' → r'.sendCancelled = true := by
+    intro t r' hr'
+    by_cases e : tid = t
+    · subst e
+      rw [lookup_remove_self] at hr'
+      cases hr'
+    · rw [lookup_remove_ne _ _ _ e] at hr'
+      exact same r' hr'
+  have ins : ∀ (out' : List (Nat × Req)) (t : Nat) (r0 : Req),
+      (∀ r', lookup out' tid = some r' → r'.sendCancelled = true) →
+      (tid = t → r0.sendCancelled = true) →
+      ∀ r', lookup (insert out' t r0) tid = some r' → r'.sendCancelled = true := by
+    intro out' t r0 ho hr0 r' hr'
+    by_cases e : tid = t
+    · subst e
+      rw [lookup_insert_self] at hr'
+      cases hr'
+      exact hr0 rfl
+    · rw [lookup_insert_ne _ _ _ _ e] at hr'
+      exact ho r' hr'
+  cases op with
+  | sendReq tid' bytes hadCreds to now =>
+    rw [step_sendReq_eq]
+    by_cases hs : (lookup s.out tid').isSome = true
+    · rw [if_pos hs]
+      exact ⟨fun tx e => (by cases e), same⟩
+    · rw [if_neg hs]
+      have hne : tid ≠ tid' := by
+        intro e
+        subst e
+        rw [h] at hs
+        exact hs rfl
+      split
+      · refine ⟨fun tx e => ?_, fun r' hr' => ?_⟩
+        · injection e with e1 e2
+          injection e1 with e1
+          exact hne e1.symm
+        · exact ins s.out tid' _ same (fun e => absurd e hne) r' hr'
+      · exact ⟨fun tx e => (by cases e), same⟩
+  | sendOther bytes to => exact ⟨fun tx e => (by cases e), same⟩
+  | handle m src =>
+    unfold step
+    cases hr : m.isResponse with
+    | false =>
+      simp only [hr, Bool.false_eq_true, ↓reduceIte]
+      refine ⟨fun tx e => (by cases e), fun r' hr' => ?_⟩
+      rw [validatedPeer_out_time] at hr'
+      exact same r' hr'
+    | true =>
+      simp only [hr, ↓reduceIte]
+      cases hl : lookup s.out m.tid with
+      | none => exact ⟨fun tx e => (by cases e), same⟩
+      | some r0 =>
+        have hr0 : tid = m.tid → r0.sendCancelled = true := by
+          intro e
+          rw [← e, h] at hl
+          cases hl
+          exact hc
+        simp only []
+        cases hcr : r0.hadCreds with
+        | false =>
+          simp only [Bool.false_eq_true, ↓reduceIte]
+          refine ⟨fun tx e => (by cases e), fun r' hr' => ?_⟩
+          rw [validatedPeer_out_time] at hr'
+          exact rem m.tid r' hr'
+        | true =>
+          simp only [↓reduceIte]
+          cases hk : s.remoteCreds with
+          | none =>
+            exact ⟨fun tx e => (by cases e), ins _ m.tid r0 (rem m.tid) hr0⟩
+          | some k =>
+            simp only []
+            cases hv : m.validUnder k with
+            | true =>
+              simp only [↓reduceIte]
+              refine ⟨fun tx e => (by cases e), fun r' hr' => ?_⟩
+              rw [validatedPeer_out_time] at hr'
+              exact rem m.tid r' hr'
+            | false =>
+              simp only [Bool.false_eq_true, ↓reduceIte]
+              exact ⟨fun tx e => (by cases e), ins _ m.tid r0 (rem m.tid) hr0⟩
+  | poll now pick =>
+    show (∀ tx, (agentPoll s now pick).2 ≠ _) ∧
+      ∀ r', lookup (agentPoll s now pick).1.out tid = some r' → r'.sendCancelled = true
+    rw [agentPoll_eq_time]
+    cases chosen s now pick with
+    | none => exact ⟨fun tx e => (by cases e), same⟩
+    | some tid' =>
+      simp only []
+      cases hl : lookup s.out tid' with
+      | none => exact ⟨fun tx e => (by cases e), same⟩
+      | some r0 =>
+        simp only []
+        unfold serve_time
+        cases hx : (reqPoll r0 now).2 with
+        | waitUntil t => exact ⟨fun tx e => (by cases e), same⟩
+        | timedOut => exact ⟨fun tx e => (by cases e), rem tid'⟩
+        | cancelled => exact ⟨fun tx e => (by cases e), rem tid'⟩
+        | sendData =>
+          have hne : tid ≠ tid' := by
+            intro e
+            subst e
+            rw [h] at hl
+            cases hl
+            exact reqPoll_sendCancelled r now hc hx
+          refine ⟨fun tx e => ?_, upd tid' (fun _ => (reqPoll r0 now).1) (fun e => absurd e hne)⟩
+          injection e with e1 e2
+          injection e1 with e1
+          exact hne e1.symm
+  | cancel tid' =>
+    exact ⟨fun tx e => (by cases e),
+      upd tid' (fun r => { r with sendCancelled := true, recvCancelled := true }) (fun _ => rfl)⟩
+  | cancelRtx tid' =>
+    exact ⟨fun tx e => (by cases e),
+      upd tid' (fun r => { r with sendCancelled := true }) (fun _ => rfl)⟩
+  | configure tid' rto n last =>
+    refine ⟨fun tx e => (by cases e),
+      upd tid' (fun r => configureReq s.transport r rto n last) (fun _ => ?_)⟩
+    unfold configureReq
+    split <;> exact hc
+  | setRemoteCreds k => exact ⟨fun tx e => (by cases e), same⟩
 
 end StunVerif.Agent
